@@ -19,7 +19,7 @@ PROPS = {
                       "and Latch programs (counts 1..16, random compositions of the count into count_down(n) and arrive_and_wait over 1..4 threads plus 0..6 pure waiters, the zero-crossing operation either fixed by the "
                       "spec or raced) run on the real primitives. A waiter that returns while fewer decrements / no notify have been issued is an early return; a waiter that never returns ends in the "
                       "watchdog's deadlock verdict (all parked in untimed FUTEX_WAIT, exits stable). Held-on-what-was-run.",
-        "level_note": "Family simultaneous-final: a waiter parked in wait(), the last 2..3 decrements (count_down(n) / arrive_and_wait) released together through a hot relaxed spin line with a per-round skew of -300..+300 ns, 300..1000 rounds per case on a fresh Latch each round; verdict: all count_downs returned, no FUTEX_WAKE issued since the round began, a waiter still inside its futex wait for 3 samples. Trusts the futex interposer's census and the relaxed 'issued' counters (advanced before the call, read after the wait returns; the primitives' own release/acquire chain orders them).",
+        "level_note": "Family simultaneous-final: a waiter parked in wait(), the last 2..3 decrements (count_down(n) / arrive_and_wait) released together through a hot relaxed spin line with a per-round skew of -300..+300 ns, 150..450 rounds per case (quick; up to 3000 thorough) on a fresh Latch each round; verdict: all count_downs returned, no FUTEX_WAKE issued since the round began, a waiter still inside its futex wait for 3 samples. Trusts the futex interposer's census and the relaxed 'issued' counters (advanced before the call, read after the wait returns; the primitives' own release/acquire chain orders them).",
         "design_ref": "DESIGN.md §4 C21",
         "rule": "case = (primitive, waiters, arrival mode, composition of the count over threads, final operation, perturbation); non-trivial = at least one thread really entered a futex wait; distinct by full spec",
         "required_classes": ["event", "latch", "event:waiters-parked", "event:notify-first", "event:race", "event:gate-reached", "event:all-parked-before-notify", "event:reset-reuse",
